@@ -58,6 +58,31 @@ func TestC14Xid(t *testing.T) {
 			common.VerifSetXidCounter(0xffffffff - uint32(seed>>uint(r%13))%uint32(n*g/2+1))
 		}
 		mode := r % 4 // 0 shared generator, 1 own generators, 2 constructors, 3 mixed
+		// in every other round extra goroutines parse frames while the ids are drawn: parsing allocates its
+		// receivers through the same constructors and must not disturb the ids handed to anyone else
+		parsers := 0
+		if r%2 == 1 {
+			parsers = 1 + r%3
+		}
+		stopParsers := make(chan struct{})
+		var pwg sync.WaitGroup
+		for pi := 0; pi < parsers; pi++ {
+			pwg.Add(1)
+			go func(pi int) {
+				defer pwg.Done()
+				for i := 0; ; i++ {
+					select {
+					case <-stopParsers:
+						return
+					default:
+					}
+					of.Parse(c14ParseFrames[(i+pi)%len(c14ParseFrames)])
+					if i%8 == 0 {
+						runtime.Gosched()
+					}
+				}
+			}(pi)
+		}
 		ids := make([][]uint32, g)
 		var badVersion atomic.Int64
 		start := make(chan struct{})
@@ -104,6 +129,11 @@ func TestC14Xid(t *testing.T) {
 		}
 		close(start)
 		wg.Wait()
+		close(stopParsers)
+		pwg.Wait()
+		if parsers > 0 {
+			c.Label("xid_with_concurrent_parsing")
+		}
 		c.Eval()
 		// oracle
 		seen := make(map[uint32]int, g*n)
@@ -170,6 +200,19 @@ type c14out struct {
 }
 
 var c14Uniq atomic.Uint64
+
+// frames of the kinds whose receivers Parse allocates through constructors (flow-mod, features request/reply,
+// set-config, flow-removed) plus a few others
+var c14ParseFrames = func() [][]byte {
+	var out [][]byte
+	for _, k := range []string{"flow_mod", "set_config", "features_request", "hello", "barrier_request"} {
+		out = append(out, c07SeedCtl(k).Example(3))
+	}
+	for _, k := range []string{"features_reply", "flow_removed", "packet_in", "port_status", "get_config_reply"} {
+		out = append(out, c07SeedSw(k).Example(3))
+	}
+	return out
+}()
 
 var c14Build = rapid.Custom(func(rt *rapid.T) builtMsg { return buildMessage(rt, nil) })
 var c14Switch = rapid.Custom(func(rt *rapid.T) gen.SwitchMsg {
